@@ -6,6 +6,7 @@ import (
 
 	"github.com/xjslang/xjs/ast"
 	"github.com/xjslang/xjs/compiler"
+	"github.com/xjslang/xjs/debug"
 )
 
 // print: trees (parser-produced or assembled through the public node fields) x
@@ -339,7 +340,11 @@ func compileObservable(c ccfg, prog *ast.Program) (out string) {
 		}
 		m = fmt.Sprintf("v=%d names=[%s] mappings=%s", res.SourceMap.Version, strings.Join(names, ","), res.SourceMap.Mappings)
 	}
-	return "code=" + hx(res.Code) + " " + m
+	dbg := ""
+	if !c.pretty && !c.withMap {
+		dbg = " dbg=" + hx(debug.ToString(prog))
+	}
+	return "code=" + hx(res.Code) + dbg + " " + m
 }
 
 func runPrint(line string) string {
